@@ -244,5 +244,15 @@ func runC02(c Case, m *Model) (v Verdict) {
 	if rb != mf["r"] {
 		v.Mismatch = append(v.Mismatch, "reader model differs: model "+short(mf["r"])+" impl "+short(rb))
 	}
+	// the same bytes through other kinds of sources (file, SectionReader, bufio ...) and with a logger configured
+	if len(c.Op)%3 == 0 && rb != "panic" {
+		if msg := otherSources(b, rb); msg != "" {
+			v.Oracle = append(v.Oracle, msg+" bytes "+short(mf["bytes"]))
+		}
+		if lg := readClassLogged(b); lg != rb {
+			v.Oracle = append(v.Oracle, "reading with a logger configured gives "+short(lg)+", without "+short(rb)+" bytes "+short(mf["bytes"]))
+		}
+		v.Tags = append(v.Tags, "other-sources")
+	}
 	return
 }
